@@ -11,7 +11,7 @@ from .. import AnalysisError, AnchorMissing
 from ..cfg import cfg_of
 from ..model import own_nodes
 from ..values import pattern, match, match_any, find, contains, show, subterms
-from .base import obligation, src, callee_name
+from .base import obligation, src, callee_name, if_branches, split_if
 from .C04 import pattern_term, returns, enclosing_loop, _inside
 from .C03 import _output_store_sites
 
@@ -121,7 +121,7 @@ def c08_c(ctx):
         raise AnchorMissing('no evaluation method with a `log` switch in ModelPrior')
     ex = ctx.ex(ev)
     sel = [n for n in own_nodes(ev.node) if isinstance(n, ast.If) and
-           ex.term(n.test) == ('param', 'log')]
+           if_branches(ex, n, ('log', 'log is True')) is not None]
     if not sel:
         ctx.undecided('no `if log:` selection in ' + ev.qname)
 
@@ -133,7 +133,8 @@ def c08_c(ctx):
                 if v[0] == 'attr' and v[1] == ('param', 'self'):
                     out.add(v[2])
         return out
-    ft, ff = fam(sel[0].body), fam(sel[0].orelse)
+    _bt, _bf = if_branches(ex, sel[0], ('log', 'log is True'))
+    ft, ff = fam(_bt), fam(_bf)
     ctx.check(ft == {'_logpdf_net', '_logpdf_node'} and ff == {'_pdf_net', '_pdf_node'}, ev,
               'family selection', 'log: (_logpdf_net, _logpdf_node) else (_pdf_net, _pdf_node)',
               'log selects {} and not-log selects {}'.format(sorted(ft), sorted(ff)), fn=ev,
